@@ -3,6 +3,18 @@ from . import conc
 from .concprop import *
 
 
+import uuid
+NAMESPACES = ["00000000-0000-0000-0000-000000000000", "ffffffff-ffff-ffff-ffff-ffffffffffff",
+              "6ba7b810-9dad-11d1-80b4-00c04fd430c8", "00000000-0000-0000-0000-000000000001"]
+
+
+def ns_of(prog):
+    for x in prog["flags"].split(","):
+        if x.startswith("ns="):
+            return uuid.UUID(x[3:])
+    return None
+
+
 def extra_lines(rng, tier):
     out = []
     for i in range(200 if tier == "quick" else 4000):
@@ -13,7 +25,8 @@ def extra_lines(rng, tier):
         k = rng.randint(1, 19)
         g0 = rng.choice([0, 0, 10 ** k - 2, 10 ** k - 2, 10 ** k, 10 ** k + rng.randint(0, 10 ** max(k - 2, 0)),
                          (1 << 32) - 2, (1 << 53) - 1, (1 << 64) - 3, rng.randint(0, (1 << 64) - 50)])
-        out.append("g%d|100||%s|%s%d|mode=O,proj=gen+map+tk,gen0=%d" % (i, threads, rng.choice("rp"), rng.randint(1, 10 ** 9), g0))
+        ns = rng.choice(NAMESPACES + [str(uuid.UUID(int=rng.getrandbits(128)))])
+        out.append("g%d|100||%s|%s%d|mode=O,proj=gen+map+tk,gen0=%d,ns=%s" % (i, threads, rng.choice("rp"), rng.randint(1, 10 ** 9), g0, ns))
     return out
 
 
@@ -40,6 +53,6 @@ def judge_repro(rec, prog, info):
 def run(tier, seed, replay=None):
     return run_conc_property(
         "C14", tier, seed, replay,
-        judges=[("ids distinct and derived from the counter", lambda rec, prog, info: conc.judge_ids(rec, info)),
+        judges=[("ids distinct and derived from (namespace, counter)", lambda rec, prog, info: conc.judge_ids(rec, info, ns_of(prog))),
                 ("counter steps", judge_repro)],
         extra_lines=extra_lines, n_quick=1200, n_thorough=30000, flags="mode=O,proj=gen+map+tk", final_keys=())
